@@ -1,0 +1,48 @@
+//go:build verif
+
+// Contracts for the verification machinery in /verif (comment-only; compiled only with -tags verif).
+
+package processor
+
+// ---- shared vocabulary ----
+//
+//@ spec lexLess(t1 uint64, n1 uint64, t2 uint64, n2 uint64) bool { t1 < t2 || (t1 == t2 && n1 < n2) }
+//@ spec opLess(a *operation.AnchoredOperation, b *operation.AnchoredOperation) bool {
+//@     lexLess(a.TransactionTime, a.TransactionNumber, b.TransactionTime, b.TransactionNumber) }
+//@ spec published(a *operation.AnchoredOperation) bool { a.CanonicalReference != "" }
+//@ spec pubFirst(a *operation.AnchoredOperation, b *operation.AnchoredOperation) bool { published(a) && !published(b) }
+//@ spec allNonNil(ops []*operation.AnchoredOperation) bool { forall q int :: 0 <= q && q < len(ops) ==> ops[q] != nil }
+//
+//@ lemma lexLess-irreflexive: forall t uint64, n uint64 :: !lexLess(t, n, t, n)
+//@ lemma lexLess-transitive: forall a uint64, b uint64, c uint64, d uint64, e uint64, f uint64 :: lexLess(a, b, c, d) && lexLess(c, d, e, f) ==> lexLess(a, b, e, f)
+//@ lemma lexLess-total: forall a uint64, b uint64, c uint64, d uint64 :: lexLess(a, b, c, d) || lexLess(c, d, a, b) || (a == c && b == d)
+//
+// ---- C02: chronological order ----
+//
+//@ func sortOperations
+//@   requires allNonNil(ops)
+//@   closure 1
+//@     relation opLess over ops
+//@     requires 0 <= i && i < len(ops) && 0 <= j && j < len(ops) && allNonNil(ops)
+//@   end
+//@   ensures forall a int, b int :: 0 <= a && a < b && b < len(ops) ==> !opLess(ops[b], ops[a])
+//@   ensures allNonNil(ops)
+//@   modifies elems(ops)
+//
+//@ func isOpWithTxnGreaterThanOrUnpublished
+//@   requires op != nil
+//@   ensures  result == (op.CanonicalReference == "" || lexLess(txnTime, txnNumber, op.TransactionTime, op.TransactionNumber))
+//
+// ---- C06: historical resolution filters ----
+//
+//@ spec parseOK(s string) bool
+//@ spec unixOf(s string) int64
+//
+//@ func filterOpsByVersionID
+//@   requires allNonNil(ops)
+//@   loop 1
+//@     invariant forall q int :: 0 <= q && q < _k ==> ops[q].CanonicalReference != versionID
+//@   ensures err == nil ==> len(r0) >= 1 && len(r0) <= len(ops) && sameSlice(r0, ops)
+//@   ensures err == nil ==> ops[len(r0)-1].CanonicalReference == versionID
+//@   ensures err == nil ==> (forall q int :: 0 <= q && q < len(r0)-1 ==> ops[q].CanonicalReference != versionID)
+//@   ensures err != nil ==> (forall q int :: 0 <= q && q < len(ops) ==> ops[q].CanonicalReference != versionID)
